@@ -268,6 +268,22 @@ func (r *rec) enc() bool {
 	r.last = c
 	t := cells.Project([]*boc.Cell{c})
 	r.w.Emit(ev.M{"k": "Enc", "err": "", "cells": t.Cells, "roots": t.Roots})
+	// encoding is an observation: the dictionary in memory must still be the same map afterwards
+	var items [][2]string
+	err = safely(func() error {
+		var e error
+		items, e = r.d.Items()
+		return e
+	})
+	if err != nil {
+		r.fail("List", err, nil)
+		return false
+	}
+	if len(items) <= 256 {
+		r.w.Emit(ev.M{"k": "List", "size": len(items), "items": items})
+	} else {
+		r.w.Emit(ev.M{"k": "List", "size": len(items), "items": append(append([][2]string{}, items[:128]...), items[len(items)-128:]...), "part": true})
+	}
 	return true
 }
 
@@ -760,12 +776,19 @@ func Drive(w *ev.Writer, o Opts) {
 			if len(keys) > 0 {
 				r.put(keys[0], randBits(rng, 32))
 			}
-			for _, nk := range []string{fixKey(kind, randBits(rng, n)), strings.Repeat("1", n), strings.Repeat("0", n)} {
+			extra := []string{fixKey(kind, randBits(rng, n)), strings.Repeat("1", n), strings.Repeat("0", n)}
+			if kind == "a" { // the extreme workchains of an address key: -128 and 127
+				tail := randBits(rng, n-32)
+				extra = append(extra, strings.Repeat("1", 25)+strings.Repeat("0", 7)+tail, strings.Repeat("0", 25)+strings.Repeat("1", 7)+tail)
+			} else if n >= 2 { // the minimum / maximum of a signed key, the top-bit boundary of an unsigned one
+				extra = append(extra, "1"+strings.Repeat("0", n-1), "0"+strings.Repeat("1", n-1))
+			}
+			for _, nk := range extra {
 				if !r.put(nk, randBits(rng, 32)) {
 					break
 				}
 			}
-			if r.enc() {
+			if r.enc() && r.enc() { // twice: the second encoding is of the dictionary the first one left in memory
 				r.dec()
 			}
 			orders(r, w, rng, kind, n, keys, pairs)
